@@ -147,8 +147,41 @@ fn divide(a: Decimal, b: Decimal) -> EvalResult {
 }
 
 fn modulo(a: Decimal, b: Decimal) -> EvalResult {
-    Ok(a.checked_rem(b)
-        .ok_or("Division by zero or decimal overflow")?)
+    if b.is_zero() {
+        return Err("Division by zero".into());
+    }
+    if a.is_zero() {
+        return Ok(Decimal::ZERO);
+    }
+    if a.abs() < b.abs() {
+        return Ok(a);
+    }
+    // Exact remainder (sign of the dividend) on the integer coefficients. Decimal::checked_rem returns
+    // wrong digits when the dividend has to be rescaled beyond 96 bits to reach the divisor's scale,
+    // e.g. 18446744073709551616 % 1.0000000000000000000000000001.
+    let (coefficient_a, coefficient_b) = (a.mantissa().unsigned_abs(), b.mantissa().unsigned_abs());
+    let (scale_a, scale_b) = (a.scale(), b.scale());
+    let (remainder, scale) = if scale_a >= scale_b {
+        match 10u128
+            .checked_pow(scale_a - scale_b)
+            .and_then(|power| coefficient_b.checked_mul(power))
+        {
+            Some(rescaled_b) => (coefficient_a % rescaled_b, scale_a),
+            // the divisor is larger than any dividend
+            None => (coefficient_a, scale_a),
+        }
+    } else {
+        // (coefficient_a * 10^k) mod coefficient_b, one digit at a time: every step stays below 2^100
+        let mut remainder = coefficient_a % coefficient_b;
+        for _ in 0..(scale_b - scale_a) {
+            remainder = remainder * 10 % coefficient_b;
+        }
+        (remainder, scale_b)
+    };
+    let mut result =
+        Decimal::try_from_i128_with_scale(remainder as i128, scale).map_err(|_| "Decimal overflow")?;
+    result.set_sign_negative(a.is_sign_negative() && remainder != 0);
+    Ok(result)
 }
 
 fn pow(a: Decimal, b: Decimal) -> EvalResult {
